@@ -9,6 +9,7 @@ import (
 	"fmt"
 	"io"
 	"net/http"
+	"os"
 	"regexp"
 	"sort"
 	"strings"
@@ -437,6 +438,8 @@ var scenConstantsYAML = []string{
 	"variable_sources:\n  - type: file/json\n    name: j\n    file: /c13s/empty.json\nscenarios: []\n",
 	"variable_sources:\n  - type: variables\n    name: v\n    variables:\n      a: randInt(5,5)\n      b: randString(-1)\nscenarios: []\n",
 	"calls:\n  - name: c\n    call: target.TargetService.Hello\n    payload: '{}'\nscenarios:\n  - name: s\n    requests: [\"sleep(1)\"]\n",
+	"scenarios:\n- 0: x", "scenarios:\n- name: s\n  7: 8\n  requests: []\n", "requests:\n- name: r\n  method: GET\n  uri: /\n  true: 1\nscenarios: []\n", "requests:\n- ? [a]\n  : b\n",
+	"variable_sources:\n- type: variables\n  name: v\n  variables: {1: 2}\nscenarios: []\n", "1: 2", "null: 1", "scenarios:\n- 1.5: x",
 	"a: &a [*a]", "a: &a\n  b: *a", "? [", "\t", "%YAML 9.9", "--- !!binary x", "scenarios: !!int x", strings.Repeat("[", 3000), strings.Repeat("a: ", 2000),
 }
 
@@ -634,6 +637,9 @@ func scenBody(c ScenCase, o *vf.Obs) error {
 		}
 		if c.Origin == "valid" {
 			class("valid_rejected")
+			if os.Getenv("C13_DEBUG") != "" {
+				fmt.Fprintf(os.Stderr, "C13_DEBUG valid description rejected: %v\n", buildErr)
+			}
 		}
 		return nil
 	}
